@@ -479,6 +479,13 @@ def packs(thorough, seed):
         # singles everywhere; pairs for a rotating third of the (kernel,
         # dim) pairs in quick, all in thorough
         with_pairs = thorough or (i % 7 == seed % 7)
+        if thorough:
+            # all 210 symbol pairs, in three modules per (kernel, dim): one
+            # module with all of them needs several GB to compile
+            for c in range(3):
+                out.append(dict(kind='S', kernel=k, dim=d, pairs=True,
+                                thorough=True, seed=seed, chunk=c))
+            continue
         out.append(dict(kind='S', kernel=k, dim=d, pairs=with_pairs,
                         thorough=thorough, seed=seed))
     nb = len(family_b())
@@ -498,6 +505,8 @@ def programs_of(pack):
     if pack['kind'] == 'S':
         prs = s_pairs(pack['thorough'], pack['seed']) if pack['pairs'] \
             else None
+        if prs is not None and 'chunk' in pack:
+            prs = prs[pack['chunk']::3]
         return [(n, s, tol, info, None, None)
                 for n, s, tol, info in family_s(prs)]
     if pack['kind'] == 'B':
